@@ -173,7 +173,33 @@ func mutations(l *ledger, rng *rand.Rand, base *nom.DetailedMomentum, elected *w
 		d.AccountBlocks = append(d.AccountBlocks, &nom.AccountBlock{Version: 1, ChainIdentifier: 100, BlockType: nom.BlockTypeUserSend,
 			Address: h.Address, Hash: h.Hash, Height: h.Height})
 	})
+	both("prefetched-extra-contract-send", func(d *nom.DetailedMomentum) {
+		// a send block of an embedded contract that no header names (such blocks are exempt from the linking test)
+		var hh types.Hash
+		rng.Read(hh[:])
+		b := &nom.AccountBlock{Version: 1, ChainIdentifier: 100, BlockType: nom.BlockTypeContractSend, Address: types.TokenContract,
+			ToAddress: backers[rng.Intn(len(backers))].Address, Hash: hh, Height: uint64(1 + rng.Intn(50)), Amount: big.NewInt(int64(rng.Intn(1000))),
+			TokenStandard: types.ZnnTokenStandard}
+		i := rng.Intn(len(d.AccountBlocks) + 1)
+		d.AccountBlocks = append(append(append([]*nom.AccountBlock{}, d.AccountBlocks[:i]...), b), d.AccountBlocks[i:]...)
+	})
 	if len(base.Momentum.Content) > 0 {
+		both("prefetched-block-twice", func(d *nom.DetailedMomentum) {
+			d.AccountBlocks = append(d.AccountBlocks, WireCopyBlock(d.AccountBlocks[rng.Intn(len(d.AccountBlocks))]))
+		})
+		both("prefetched-block-of-named-account-extra", func(d *nom.DetailedMomentum) {
+			// one more block of an account that has blocks in the momentum, linked to the last of them
+			last := d.AccountBlocks[rng.Intn(len(d.AccountBlocks))]
+			for _, b := range d.AccountBlocks {
+				if b.Address == last.Address && b.Height > last.Height {
+					last = b
+				}
+			}
+			var hh types.Hash
+			rng.Read(hh[:])
+			d.AccountBlocks = append(d.AccountBlocks, &nom.AccountBlock{Version: 1, ChainIdentifier: 100, BlockType: nom.BlockTypeUserSend,
+				Address: last.Address, Hash: hh, Height: last.Height + 1, PreviousHash: last.Hash, Amount: big.NewInt(1), TokenStandard: types.ZnnTokenStandard})
+		})
 		both("content-header-dropped", func(d *nom.DetailedMomentum) {
 			i := rng.Intn(len(d.Momentum.Content))
 			d.Momentum.Content = append(append(nom.MomentumContent{}, d.Momentum.Content[:i]...), d.Momentum.Content[i+1:]...)
@@ -357,6 +383,39 @@ func observe(l *ledger, out *Out, c cand, poolBlocks []*nom.AccountBlock) {
 		out.Oracle(okLink, "accepted-momentum-extends-frontier", M{"candidate": c.tag, "prev": fmt.Sprint(m.Previous()), "frontier": fmt.Sprint(old.Identifier())})
 		out.Oracle(okTime, "accepted-momentum-timestamp", M{"candidate": c.tag, "ts": U64(m.TimestampUnix), "parent": U64(old.TimestampUnix), "now": now0})
 		out.Oracle(okHash && sigOK(m), "accepted-momentum-hash-commits", M{"candidate": c.tag})
+	}
+	// content / prefetch clause: an accepted momentum was presented with EXACTLY the account blocks its content names -
+	// as many distinct blocks (by identifier) as headers, every header names a presented block, and per address the
+	// blocks link (previous = the head so far / the account's frontier in the parent's store; blocks of embedded
+	// contracts' send batches are exempt, as in the code)
+	if err == nil && parentStore != nil {
+		ids := map[types.HashHeight]*nom.AccountBlock{}
+		for _, b := range d.AccountBlocks {
+			ids[b.Identifier()] = b
+		}
+		named, linked := true, true
+		heads := map[types.Address]types.HashHeight{}
+		for _, h := range m.Content {
+			b, ok := ids[h.Identifier()]
+			if !ok {
+				named = false
+				continue
+			}
+			if b.IsSendBlock() && types.IsEmbeddedAddress(b.Address) {
+				continue
+			}
+			prev, seen := heads[h.Address]
+			if !seen {
+				if fb, e := parentStore.GetFrontierAccountBlock(h.Address); e == nil && fb != nil {
+					prev = fb.Identifier()
+				}
+			}
+			linked = linked && b.Previous() == prev
+			heads[h.Address] = b.Identifier()
+		}
+		out.Oracle(len(ids) == len(m.Content) && named && linked, "accepted-momentum-carries-exactly-the-blocks-its-content-names",
+			M{"candidate": c.tag, "headers": len(m.Content), "presented_blocks": len(d.AccountBlocks), "distinct_presented_blocks": len(ids),
+				"every_header_names_a_presented_block": named, "blocks_link_per_address": linked, "written_to_chain": inserted})
 	}
 	if c.tag == "valid" {
 		out.Oracle(inserted, "valid-momentum-accepted", M{"class": className[cls], "err": fmt.Sprint(err)})
